@@ -13,8 +13,8 @@ WITNESSES = {'all': ['function-left', 'function-right', 'partner-function', 'par
 OPTS = {'quick': {'selfcheck_mod': 20, 'budget_s': 240}, 'thorough': {'selfcheck_mod': 100, 'budget_s': 1800}}
 STEP_LIMIT = 300_000
 BOUNDS = {
-    'quick': 'function terms add/subtract/multiply/divide over (symbolic i64, 3), (2.5, symbolic i64 -> concrete 4), (7, 2) and join(a, b), join([a, b], "!") paired with: '
-             'unbound variable, variable bound to the value / to another value, equal constant, different constant of the same type, atom, complex term, list, `$_`, '
+    'quick': 'function terms add/subtract/multiply/divide over (symbolic i64, 3), (2.5, 4), (7, 2), (0.1, 0.2), (0.5, 0.25), (symbolic f64 in [-1e6, 1e6], 0.25) and join(a, b), join([a, b], "!") paired with: '
+             'unbound variable, variable bound to the value / to another value, equal constant, different constant of the same type (a solver variable: any other i64 / any other f64, however close), atom, complex term, list, `$_`, '
              'a second function term of equal value and one of different value; unify(F, T) and unify(T, F) through Unifiable::unify and through the `unify` built-in goal; '
              'oracle: the real unify on (value of F, T with its own function evaluated)',
     'thorough': 'same plus 3-argument functions and partners reached through chains of 2 variables',
@@ -26,6 +26,7 @@ FUNCS = [
     ('add', [('sym',), ('k', 3)]), ('subtract', [('sym',), ('k', 3)]), ('multiply', [('k', 7), ('k', 2)]), ('divide', [('k', 7), ('k', 2)]),
     ('add', [('r', 2.5), ('k', 4)]), ('divide', [('r', 7.0), ('k', 2)]), ('multiply', [('r', 0.5), ('r', 4.0)]),
     ('join', [('q', 'a'), ('q', 'b')]), ('join', [('lst', ('a', 'b')), ('q', '!')]),
+    ('add', [('r', 0.1), ('r', 0.2)]), ('multiply', [('r', 0.5), ('r', 0.25)]), ('subtract', [('symf',), ('r', 0.25)]),
 ]
 PARTNERS = ['unbound', 'bound-equal', 'bound-different', 'equal', 'different', 'atom', 'cplx', 'list', 'anon', 'func-equal', 'func-different']
 
@@ -41,6 +42,11 @@ def cases(tier, seed):
 
 def mk(m, a, nm):
     if a[0] == 'sym': return B.sym_int(m, nm)
+    if a[0] == 'symf':
+        v = B.sym_float(m, nm, nan_ok=False)
+        if isinstance(v[1], Sym):
+            m.assume(Sym(z3.And(z3.fpLEQ(v[1].e, z3.FPVal(1e6, z3.Float64())), z3.fpGEQ(v[1].e, z3.FPVal(-1e6, z3.Float64()))), 'bool'))
+        return v
     if a[0] == 'k': return ('int', a[1])
     if a[0] == 'r': return ('float', a[1])
     if a[0] == 'q': return ('atom', a[1])
@@ -66,7 +72,11 @@ def run(drv, case):
             d = B.sym_int(m, 'd')
             if R.eq(m, d[1], v[1]): raise PathInfeasible()
             return d
-        if v[0] == 'float': return ('float', v[1] + 1.0)
+        if v[0] == 'float':
+            # any other float, however close: a solver variable constrained only to differ from the value
+            d = B.sym_float(m, 'df', nan_ok=False)
+            if R.eq(m, d[1], v[1]): raise PathInfeasible()
+            return d
         return ('atom', v[1] + 'x')
     Tprime = None
     if p == 'unbound': T = x; tags.append('partner-variable')
